@@ -17,6 +17,9 @@ mod c15;
 mod c16;
 mod c17;
 mod c18;
+mod c19;
+mod c20;
+mod exporter;
 
 use simcore::report::{install_quiet_panic_hook, Tier};
 
@@ -57,6 +60,8 @@ fn main() {
             "C16" => c16::replay(r),
             "C17" => c17::replay(r),
             "C18" => c18::replay(r),
+            "C19" => c19::replay(r),
+            "C20" => c20::replay(r),
             _ => {
                 eprintln!("no replay for {id}");
                 std::process::exit(2)
@@ -82,6 +87,8 @@ fn main() {
         "C16" => c16::run(tier),
         "C17" => c17::run(tier),
         "C18" => c18::run(tier),
+        "C19" => c19::run(tier),
+        "C20" => c20::run(tier),
         _ => {
             eprintln!("unknown check {id}");
             2
